@@ -74,6 +74,12 @@ theorem firstErr_error_of_mem (gs : List (Option String)) (t : String) (h : some
     have := (firstErr_ok_iff gs).mp hf (some t) h
     cases this
 
+/-! ### guards that also reject non-finite values, on the whole of `XF` (no finiteness hypothesis) -/
+
+/-- `(0..=1).contains(&x)` holds exactly for the finite values in `[0, 1]` -/
+theorem XF.inClosed01_iff (x : XF) : XF.inClosed XF.zero XF.one x = true ↔ x.Sat (fun q => 0 ≤ q ∧ q ≤ 1) := by
+  cases x <;> simp [XF.inClosed, XF.le, XF.Sat, XF.zero, XF.one]
+
 /-! ### the setter model of `SvmParams` -/
 
 /-- setters that assign the weights (`c` / `nu`); `.eps` only touches the solver tolerance -/
